@@ -52,7 +52,20 @@ def tup(axes):
     return tuple(tuple(g) if isinstance(g, list) else g for g in axes)
 
 
+class UnfuseFailed(MD.ShadowError):
+    pass
+
+
 def fully_unfuse(x, maxit=8):
+    try:
+        return _fully_unfuse(x, maxit)
+    except yastn.YastnError:
+        raise
+    except Exception as e:
+        raise UnfuseFailed(f"unfuse_legs of the result raised {type(e).__name__}: {e} (result is malformed)")
+
+
+def _fully_unfuse(x, maxit=8):
     for _ in range(maxit):
         legs = x.get_legs() if x.ndim else ()
         fa = [i for i, l in enumerate(legs) if l.is_fused() and l.history()[0] in 'pm']
@@ -69,6 +82,7 @@ def groups(tier, seed):
             P_ = {2: 1, 3: 2, 4: 4}[r]
             for part in range(P_):
                 gs.append({'kind': 'single', 'sym': sym, 'rank': r, 'part': part, 'parts': P_, 'level': 1 if r <= 3 else 2})
+        gs.append({'kind': 'single', 'sym': sym, 'rank': 5, 'part': 0, 'parts': 1, 'level': 2})
         for part in range(4):
             gs.append({'kind': 'pairs', 'sym': sym, 'level': 1, 'part': part, 'parts': 4})
         gs.append({'kind': 'incompatible', 'sym': sym, 'level': 1})
@@ -87,6 +101,11 @@ def run_group(g, acc):
 def single_pool(sym, r, tier):
     ms = GL.msize(sym, 2)
     nch = min(2, len(GL.CHARGES[sym]))
+    if r == 5:
+        for n in range(nch):
+            for var in (['fresh'], ['lazy', [4, 3, 2, 1, 0]]):
+                yield {'s': [1, -1, 1, -1, 1], 'm': [i % ms for i in range(5)], 'n': n, 'drop': [0] if n == 0 else None, 'var': var}
+        return
     sigs = {2: [[1, -1], [1, 1]], 3: [[1, -1, 1], [-1, -1, 1]], 4: [[1, 1, -1, -1], [1, -1, 1, -1]]}[r]
     for sig in sigs:
         for m in ([[i % ms for i in range(r)], [0] * r] if ms > 1 else [[0] * r]):
@@ -98,7 +117,13 @@ def single_pool(sym, r, tier):
                         yield {'s': sig, 'm': m, 'n': n, 'drop': drop, 'var': var}
 
 
+ARGS5 = [[[0, 1], [2, 3, 4]], [[2, 0], [1, 4, 3]], [[0, 1, 2], [3, 4]], [0, [1, 2], [3, 4]], [[4, 3, 2, 1], 0], [[0, 1], 2, [3, 4]],
+         [[1, 0], [2, 3], 4], [[3, 4, 0], [2, 1]]]
+
+
 def level_args(r, tier, first):
+    if r == 5 and first:
+        return ARGS5
     if r <= 3:
         return [a for a in P.ordered_partitions(r) if any(isinstance(g, list) for g in a)]
     if tier != 'quick' and first:
@@ -114,6 +139,17 @@ def check_fused(f, prev, axes, A, spaces, sig, n, state, what):
     m = TC.check_result(u, R, [spaces[i] for i in order], tuple(sig[i] for i in order), n, what=what + ' fully unfused')
     if m:
         return m
+    # a lazily transposed fused tensor unfuses (all fused legs at once) into the correspondingly permuted tensor
+    if f.ndim >= 2:
+        for perm in ([tuple(range(f.ndim))[::-1]] + ([tuple(range(1, f.ndim)) + (0,)] if f.ndim >= 3 else [])):
+            ft = f.transpose(perm)
+            st_p = [state[i] for i in perm]
+            order_p = flat(st_p)
+            up = fully_unfuse(ft)
+            m = TC.check_result(up, np.transpose(A, order_p), [spaces[i] for i in order_p], tuple(sig[i] for i in order_p), n,
+                                what=what + f' lazily transposed by {perm}, then fully unfused', exports=False)
+            if m:
+                return m
     # one level of unfusing restores the previous tensor (transposed as fuse_legs documents): legs incl. history
     fa = [i for i, g in enumerate(axes) if not isinstance(g, int)]
     back = f.unfuse_legs(axes=tuple(fa))
@@ -272,7 +308,7 @@ def run_pairs(g, cfg, acc):
                                 m_a[ax] = ax % ms
                                 m_b[ax] = (ax + 1) % ms
                             ta = {'s': sig_a, 'm': m_a, 'n': na, 'drop': None, 'var': var, 'id': 'a'}
-                            for opname in ('tensordot', 'add', 'vdot', 'trace'):
+                            for opname in ('tensordot', 'add', 'vdot', 'trace', 'tensordot_T', 'add_T', 'vdot_T'):
                                 case = {'kind': 'pairs', 'sym': sym, 'recipe': ri, 'modes': list(modes), 'a': ta,
                                         'm_b': m_b, 'op': opname}
                                 st, msg, rel = run_pair_case(case, cfg, acc.seed)
@@ -309,6 +345,9 @@ def run_pair_case(case, cfg, seed):
     grp = flat(state[0])
     free = [ax for s_ in state[1:] for ax in flat(s_)]
     op = case['op']
+    lazyT = op.endswith('_T')       # both fused operands carry the same pending (lazy) reversal
+    if lazyT:
+        op = op[:-2]
     sig_a = list(a.s)
     rel = '+'.join(GL.relation(GL.MENU[sym][case['a']['m'][ax]], GL.MENU[sym][case['m_b'][ax]]) for ax in grp)
     if any(not GL.consistent(GL.MENU[sym][case['a']['m'][ax]], GL.MENU[sym][case['m_b'][ax]]) for ax in range(r)):
@@ -319,7 +358,12 @@ def run_pair_case(case, cfg, seed):
             tb = {'s': sig_b, 'm': case['m_b'], 'n': 0, 'drop': [0], 'var': ['fresh'], 'id': 'b'}
             b = GT.build(cfg, sym, tb, seed)
             fa, fb = fuse_by(a.x, rec, modes), fuse_by(b.x, rec, modes)
-            st, res = TC.call(lambda: yastn.tensordot(fa, fb, axes=(0, 0)))
+            cax = 0
+            if lazyT:
+                fa, fb = fa.transpose(), fb.transpose()
+                cax = fa.ndim - 1
+                free = free[::-1] if False else free
+            st, res = TC.call(lambda: yastn.tensordot(fa, fb, axes=(cax, cax)))
             if st != 'ok':
                 return 'viol', f"tensordot over fused legs: unexpected {st}: {res}", rel
             spa, spb = list(a.spaces), list(b.spaces)
@@ -328,6 +372,13 @@ def run_pair_case(case, cfg, seed):
                 spa[ax] = spb[ax] = u
             R = np.tensordot(MD.embed(a.A, a.spaces, spa), MD.embed(b.A, b.spaces, spb), axes=(grp, grp))
             u = fully_unfuse(res)
+            if lazyT:   # free legs of each operand appear in reversed group order
+                fr = [ax for s_ in state[1:][::-1] for ax in flat(s_)]
+                R = np.tensordot(MD.embed(a.A, a.spaces, spa), MD.embed(b.A, b.spaces, spb), axes=(grp, grp))
+                # R axes: free (a, original order) + free (b, original order) -> reorder to fr + fr
+                pa = [free.index(ax) for ax in fr]
+                R = np.transpose(R, pa + [len(free) + i for i in pa])
+                free = fr
             sp = [a.spaces[i] for i in free] + [b.spaces[i] for i in free]
             sg = tuple(a.s[i] for i in free) + tuple(b.s[i] for i in free)
             m = TC.check_result(u, R, sp, sg, G.add(mods, [a.n, b.n]), what=f"tensordot over fused legs {rec} {modes}")
@@ -341,6 +392,10 @@ def run_pair_case(case, cfg, seed):
                 tb['s'] = list(sig_a)
             b = GT.build(cfg, sym, tb, seed)
             fa, fb = fuse_by(a.x, rec, modes), fuse_by(b.x, rec, modes)
+            st_eff = state
+            if lazyT:
+                fa, fb = fa.transpose(), fb.transpose()
+                st_eff = state[::-1]
             sp = [MD.union(a.spaces[i], b.spaces[i]) for i in range(r)]
             Ae, Be = MD.embed(a.A, a.spaces, sp), MD.embed(b.A, b.spaces, sp)
             if op == 'vdot':
@@ -354,7 +409,7 @@ def run_pair_case(case, cfg, seed):
                 st, res = TC.call(f)
                 if st != 'ok':
                     return 'viol', f"{nm} of fused tensors: unexpected {st}: {res}", rel
-                order = flat(state)
+                order = flat(st_eff)
                 u = fully_unfuse(res)
                 m = TC.check_result(u, np.transpose(R, order), [sp[i] for i in order], tuple(a.s[i] for i in order), a.n,
                                     what=f"{nm} of tensors fused by {rec} {modes}")
@@ -364,7 +419,7 @@ def run_pair_case(case, cfg, seed):
         if op == 'trace':
             # x has legs (grp..., grp conj...), fuse both halves by the same recipe restricted to the group
             k = len(grp)
-            if case['recipe'] not in (0, 1, 2) or k > 3:
+            if case['recipe'] not in (0, 1, 2) or k > 3 or lazyT:
                 return 'skip', None, None
             sg = [sig_a[ax] for ax in grp] + [-sig_a[ax] for ax in grp]
             mm = [case['a']['m'][ax] for ax in grp] + [case['m_b'][ax] for ax in grp]
@@ -400,7 +455,7 @@ def run_incompatible(g, cfg, acc):
     if cfg.sym.NSYM == 0 and False:
         return
     base = {'s': [1, -1, 1], 'm': [0, ms - 1, 0], 'n': 0, 'drop': None, 'var': ['fresh'], 'id': 'a'}
-    kinds = ['tree', 'order', 'signature', 'mode', 'dimension', 'depth', 'sumprod']
+    kinds = ['tree', 'order', 'signature', 'mode', 'dimension', 'depth', 'sumprod', 'dimswap']
     for kind in kinds:
         for mode in ('hard', 'meta'):
             for op in ('tensordot', 'add', 'vdot'):
@@ -427,7 +482,27 @@ def run_incompatible_case(case, cfg, seed):
     tb = {'s': [sgn * s for s in sa], 'm': [0, ms - 1, 0, 0], 'n': 0, 'drop': None, 'var': ['fresh'], 'id': 'b'}
     a = GT.build(cfg, sym, ta, seed).x
     fa = a.fuse_legs(axes=((0, 1, 2), 3), mode=mode)
-    if kind == 'tree':       # same legs, different tree: ((0,1),2) nested vs flat (0,1,2)
+    if kind == 'dimswap':
+        # constituents with the same charges but exchanged dimensions, fused in opposite order: the fused legs
+        # have equal sectors AND equal sector dimensions, only the recorded sub-dimensions differ
+        if mode == 'meta':
+            return 'skip', None
+        U = GL.UNIVERSE[sym]
+        cs = sorted(U)[:2] if len(U) >= 2 else sorted(U)
+        l1 = [[list(c), 2 + (i % 2)] for i, c in enumerate(cs)]
+        l2 = [[list(c), 3 - (i % 2)] for i, c in enumerate(cs)]
+        if len(cs) == 1:
+            l1, l2 = [[list(cs[0]), 2]], [[list(cs[0]), 3]]
+        t1 = {'s': [1, 1, 1], 'm': [l1, l2, 0], 'n': 0, 'drop': None, 'var': ['fresh'], 'id': 'a'}
+        s2 = [sgn, sgn, sgn]
+        t2 = {'s': s2, 'm': [l1, l2, 0], 'n': 0, 'drop': None, 'var': ['fresh'], 'id': 'b'}
+        a = GT.build(cfg, sym, t1, seed).x
+        b2 = GT.build(cfg, sym, t2, seed).x
+        fa = a.fuse_legs(axes=((0, 1), 2), mode='hard')
+        fb = b2.fuse_legs(axes=((1, 0), 2), mode='hard')
+        if fa.get_legs(0).tD != fb.get_legs(0).tD:
+            return 'skip', None
+    elif kind == 'tree':       # same legs, different tree: ((0,1),2) nested vs flat (0,1,2)
         b = GT.build(cfg, sym, tb, seed).x
         fb = b.fuse_legs(axes=((0, 1), 2, 3), mode=mode).fuse_legs(axes=((0, 1), 2), mode=mode)
     elif kind == 'order':    # a different number of fused legs
